@@ -36,7 +36,12 @@ if not a.rerun:
 # freeze the harness sources for the whole sweep, so that editing /verif/harness meanwhile cannot break a build
 SNAP = f"/tmp/vmut/harness-snap-{os.getpid()}"
 os.makedirs("/tmp/vmut", exist_ok=True)
-subprocess.run(["rsync", "-a", "--delete", "--exclude", "target", V + "/harness/", SNAP + "/"], check=True)
+if os.environ.get("VERIF_SNAP_WORKTREE"):
+    subprocess.run(["rsync", "-a", "--delete", "--exclude", "target", V + "/harness/", SNAP + "/"], check=True)
+else:
+    # default: the committed harness (HEAD), so that half-finished edits in the working tree cannot break a sweep
+    os.makedirs(SNAP, exist_ok=True)
+    subprocess.run(f"git -C {V} archive HEAD harness | tar -x -C {SNAP} --strip-components=1", shell=True, check=True)
 os.environ["VERIF_HARNESS_SRC"] = SNAP
 lock = threading.Lock()
 slots = list(range(a.slot_base, a.slot_base + a.slots))
@@ -79,7 +84,13 @@ def one(name):
             out["lines"].append((r.stderr or "")[-300:])
         with lock:
             res[name] = out
-            json.dump(res, open(RES, "w"), indent=1, sort_keys=True)
+            # several sweeps may run at once: merge into the file under a lock instead of overwriting it
+            import fcntl
+            with open(RES + ".lock", "w") as lk:
+                fcntl.flock(lk, fcntl.LOCK_EX)
+                cur = json.load(open(RES)) if os.path.exists(RES) else {}
+                cur[name] = out
+                json.dump(cur, open(RES, "w"), indent=1, sort_keys=True)
         print(name, out["suite"], out["checks"], flush=True)
     finally:
         with lock:
